@@ -39,6 +39,17 @@ func (g *vfGen) genC11() {
 		g.emit(vfOp("cs", "plain", s))
 		g.emit(vfOp("walk", s, 0))
 	}
+	// XML / HTML without a declared encoding: the sniffing rules apply
+	for _, body := range []string{"caf\xe9", "na\xefve \x93q\x94", "caf\xc3\xa9", "plain", "\xe9\xff", "Wait\x85"} {
+		for _, pro := range []string{"<?xml version=\"1.0\"?>", "<?xml version='1.0' standalone='yes'?>", "  <?xml version=\"1.0\" ?>"} {
+			d := []byte(pro + "<r>" + body + "</r>")
+			g.emit(vfOp("cs", "xml", d))
+			g.emit(vfOp("walk", d, 0))
+		}
+		h := []byte("<html><head><title>t</title></head><body>" + body + "</body></html>")
+		g.emit(vfOp("cs", "html", h))
+		g.emit(vfOp("walk", h, 0))
+	}
 	// every BOM with tails
 	for _, bom := range [][]byte{{0xEF, 0xBB, 0xBF}, {0, 0, 0xFE, 0xFF}, {0xFF, 0xFE, 0, 0}, {0xFE, 0xFF}, {0xFF, 0xFE}} {
 		for _, tail := range [][]byte{nil, []byte("a"), {0}, {0xFF}, {0, 0}, []byte("caf\xe9")} {
